@@ -55,7 +55,9 @@ FLOAT_BOUNDS = [-1.5, 0.0, 0.1, 1.0, 1.5, 3.14, 10.0, 99.95, 1000.0]
 DEC_BOUNDS = [Decimal("-2.5"), Decimal("0"), Decimal("1.0"), Decimal("1.50"), Decimal("99.95"), Decimal("1000")]
 DATE_BOUNDS = [dt.date(2000, 1, 1), dt.date(2020, 1, 2), dt.date(2021, 1, 1)]
 DT_BOUNDS = [dt.datetime(2000, 1, 1), dt.datetime(2020, 1, 2, 3, 4, 5), dt.datetime(2021, 1, 1)]
-REGEXES = [r"[a-z]+", r"\d+", r"a.c", r"(ab)*", r"[A-Za-z0-9]{2,4}", r"a|bc", r"^ab$", r"\d{4}-\d{2}-\d{2}", r"-?\d+(\.\d+)?"]
+REGEXES = [r"[a-z]+", r"\d+", r"a.c", r"(ab)*", r"[A-Za-z0-9]{2,4}", r"a|bc", r"^ab$", r"\d{4}-\d{2}-\d{2}", r"-?\d+(\.\d+)?",
+           # patterns whose FIRST match in priority order is not the full one (prefix alternation, lazy quantifier, optional tail)
+           r"ab|abc", r"\d+|\d+\.\d", r"[a-z]+?", r"a?(ab)?", r"(ab|abcd)(-\d)?"]
 STR_CONSTS = ["a", "ab", "abc", "1", "12", "red", "", "true"]
 
 
@@ -562,7 +564,7 @@ def gen_input(rng, spec, depth=0):
                     v = s.encode() if (oname == "bytes") != (rng.random() < 0.2) else s
                     return lambda v=v: v
             if "regex" in cd:
-                v = rng.choice(["abc", "ab", "a", "123", "12", "abab", "bc", "AbC1", "2020-01-02", "-1.5", "a1c", "axc", "", "abcabc", " abc", "abc\n"])
+                v = rng.choice(["abc", "ab", "a", "123", "12", "abab", "bc", "AbC1", "2020-01-02", "-1.5", "a1c", "axc", "", "abcabc", " abc", "abc\n", "1.5", "12.5", "abcd", "abcd-1", "ab-1"])
                 return lambda v=v: v
             if "max_digits" in cd or "decimal_places" in cd:
                 v = rng.choice([0, 1, 12, 123, 1234, 99999, 0.5, 0.05, 1.5, 1.25, 12.345, 99.95, 999.5, 0.0009995, 1e16, 1e-7, -12.5,
